@@ -94,6 +94,7 @@ def monitor(lines, impl, which):
     seq = 0
     # C06, handler clocks: which (process, message type) pairs carry a clock reading (`K:` actions; not also used by `R:`)
     ktips, rtips, skew = set(), set(), {}
+    where = {}
     for l in lines:
         if l.startswith("rule "):
             ws = l.split()
@@ -107,11 +108,13 @@ def monitor(lines, impl, which):
             apply_net(ns, w)
         if w[0] == "skew" and len(w) == 3:
             skew[w[1]] = val(w[2])
+        if w[0] == "proc" and len(w) >= 3 and ret == "ok":
+            where[w[1]] = w[2]          # the node the process was (re-)created on
         if ret == "obs":
             if which == "C07":
                 # the timer contract judged on each process's event log: requested operations and firings in order
                 for l in entries:
-                    m = re.match(r"P (\S+) (\S+) st=\S* out=\S* s=\d+ r=\d+ (?:iss=\d+ )?log=\[(.*)\]$", l)
+                    m = re.match(r"P (\S+) (\S+) st=\S* out=\S* s=\d+ r=\d+ (?:iss=\d+ )?(?:issok=\d )?log=\[(.*)\]$", l)
                     if not m:
                         continue
                     pend = set()
@@ -128,15 +131,29 @@ def monitor(lines, impl, which):
                                 return (f"process {m.group(1)}: timer {name} fired although no instance of it is pending by the contract "
                                         f"(it was cancelled, overridden, already fired, or set_timer_once was ignored)")
                             pend.discard(name)
+                    qm = [x for x in entries if x.startswith("Net ")]
+                    drained = bool(qm) and " Q=[] " in qm[0] + " "
+                    ndm = {mm.group(1): mm.group(2) for mm in (re.match(r"Nd (\S+) crashed=(\d)", x) for x in entries) if mm}
+                    if drained and pend and ndm.get(m.group(2)) == "0":
+                        return (f"process {m.group(1)}: the queue is empty, yet by the contract timer(s) {sorted(pend)} are still pending "
+                                f"(set and neither fired, cancelled nor overridden): a timer was lost")
+            if which in ("C06", "C07"):
+                # the simulator applies exactly the calls the handler issued, in their order (ties are broken by creation order,
+                # which is the order of the calls; the timer contract is about the calls as issued)
+                for l in entries:
+                    mi = re.match(r"P (\S+) \S+ st=\S* out=\S* s=\d+ r=\d+ iss=(\d+) issok=(\d) log=", l)
+                    if mi and mi.group(3) != "1":
+                        return (f"the event log of {mi.group(1)} does not list the {mi.group(2)} Context calls its handlers issued, in their order: "
+                                f"calls were merged, dropped or reordered before they were applied")
             if which == "C17":
                 for l in entries:
-                    mi = re.match(r"P (\S+) \S+ st=\S* out=\S* s=\d+ r=\d+ iss=(\d+) log=\[(.*)\]$", l)
+                    mi = re.match(r"P (\S+) \S+ st=\S* out=\S* s=\d+ r=\d+ iss=(\d+) issok=(\d) log=\[(.*)\]$", l)
                     if mi:
-                        nact = len(re.findall(r":(?:sent|lsent|tset|tcancel)\(", mi.group(3)))
-                        if nact != int(mi.group(2)):
-                            return (f"the handlers of {mi.group(1)} issued {mi.group(2)} Context calls since it was added (counted by the process "
-                                    f"itself), its event log records {nact} actions")
-                    m = re.match(r"P (\S+) (\S+) st=\S* out=\S* s=(\d+) r=(\d+) (?:iss=\d+ )?log=\[(.*)\]$", l)
+                        nact = len(re.findall(r":(?:sent|lsent|tset|tcancel)\(", mi.group(4)))
+                        if nact != int(mi.group(2)) or mi.group(3) != "1":
+                            return (f"the handlers of {mi.group(1)} issued {mi.group(2)} Context calls since it was added (recorded by the process "
+                                    f"itself); its event log records {nact} actions" + ("" if mi.group(3) == "1" else ", not the same ones in the same order"))
+                    m = re.match(r"P (\S+) (\S+) st=\S* out=\S* s=(\d+) r=(\d+) (?:iss=\d+ )?(?:issok=\d )?log=\[(.*)\]$", l)
                     if m:
                         p = m.group(1)
                         c = counts.get(p, {"s": 0, "r": 0})
@@ -209,6 +226,9 @@ def monitor(lines, impl, which):
                 counts[f[2]] = {"s": 0, "r": 0}
             elif kind == "MS":
                 mid, sn, sp, dn, dp = f[1], f[2], f[3], f[4], f[5]
+                if which in ("C05", "C08") and (where.get(sp, sn) != sn or where.get(dp, dn) != dn):
+                    return (f"message {mid} from {sp} to {dp} is routed as {sn} -> {dn}, but the processes live on "
+                            f"{where.get(sp, sn)} and {where.get(dp, dn)}: link controls, faults and delays of the wrong nodes are applied")
                 data = ",".join(f[6:])
                 cut = sn != dn and (sn in ns["dout"] or dn in ns["din"] or (sn, dn) in ns["links"])
                 sends[mid] = dict(t=et, q=seq, sn=sn, dn=dn, sp=sp, dp=dp, data=data, cut=cut, ns=dict(ns, din=set(ns["din"]), dout=set(ns["dout"]), links=set(ns["links"])),
